@@ -4,6 +4,7 @@ import RjModel.Props.C11
 import RjModel.Generated.SlashTable
 import RjModel.Lemmas.SyncLemmas
 import RjModel.Lemmas.ListingLemmas
+import RjModel.Lemmas.FilteredListing
 import RjModel.Lemmas.DoerLemmas
 /-! # C01 — a successful sync makes the destination a mirror of the source
 
@@ -250,6 +251,27 @@ theorem C01_mirror_two_trees (S D : FS) (rs rd : FPath) (fS fD : Nat)
       D'.get rd = some .folder ∧
       ∀ p, p ≠ [] → MirrorAt D D' rd p (srcOfFS S rs p) :=
   C01_mirror_fs (destWF_of_listNodes D hD rd hroot hanc hclosed fD hfuel) (srcWF_of_tree S rs fS hS)
+
+/-- **Mirror under filters, for every source tree and every destination tree**: both sides list with the same filter
+verdict `keep` on relative paths (C06), an entry that is not kept being neither reported nor entered
+(`C17_listing_exact_filtered`).  Under the one assumption that no destination folder the plan deletes holds something the
+walk does not reach (`hsafe`; otherwise the deletion fails: `C07_nonempty_folder_fails`), the run ends `ok`, follows no
+link, touches nothing outside `rd`, reaches the mirror state at every path the walk reaches (`visOf keep`) and leaves
+every other path below `rd` exactly as it was. -/
+theorem C01_mirror_two_trees_filtered (keep : FPath → Bool) (S D : FS) (rs rd : FPath) (fS fD : Nat)
+    (hS : SrcTreeOk S rs fS) (hD : D.Wf)
+    (hroot : D.get rd = some .folder) (hanc : ∀ k, k < rd.length → D.get (rd.take k) = some .folder)
+    (hclosed : ∀ p, p ≠ [] → D.get (rd ++ p) ≠ none → D.get (rd ++ p.dropLast) = some .folder)
+    (hfuel : ∀ p, D.get (rd ++ p) ≠ none → p.length ≤ fD)
+    (hsafe : ∀ p c n, (p, Node.folder) ∈ planDel (srcOfFS S rs) ((listNodesF keep rd D fD rd).map fun e => (e.1.drop rd.length, e.2)) →
+      D.get (rd ++ (p ++ [c])) = some n → visOf keep (p ++ [c]) = true) :
+    ∃ D', syncDest D rd (srcOfFS S rs) (lsOfFSF keep S rs fS)
+        ((listNodesF keep rd D fD rd).map fun e => (e.1.drop rd.length, e.2)) = .ok D' ∧
+      (∀ q, ¬ rd <+: q → D'.get q = D.get q) ∧
+      D'.get rd = some .folder ∧
+      (∀ p, p ≠ [] → visOf keep p = true → MirrorAt D D' rd p (srcOfFS S rs p)) ∧
+      (∀ p, visOf keep p = false → D'.get (rd ++ p) = D.get (rd ++ p)) :=
+  sync_mirror (destWF_of_listNodesF keep D hD rd hroot hanc hclosed fD hfuel) (srcWF_of_treeF keep S rs fS hS) hsafe
 
 /-- how an entry of the file-system model appears in a listing (`entry_details_from_metadata`; the
 link kind `k` is whatever the probe gives: a unix destination does not compare it) -/
